@@ -97,3 +97,21 @@ Definition default_funs : list (str * fdef) :=
    ($"getMilliseconds", bi [XThis TTs] FGetMilliseconds)].
 
 Definition default_ctx : ctx := {| funs := default_funs; scopes := [[]] |}.
+
+(** Operation sequences on a context (for C11): define in the innermost scope, open an inner
+    scope, drop it again.  [depth] counts the inner scopes opened and not yet dropped; dropping
+    the base scope is not an operation the API offers and is ignored. *)
+Inductive cop := ODef (x : str) (v : value) | OPush | OPop | OGet (x : str).
+
+Definition run_cop (st : nat * ctx * list (outcome value)) (o : cop)
+  : nat * ctx * list (outcome value) :=
+  let '(d, c, outs) := st in
+  match o with
+  | ODef x v => (d, define c x v, outs)
+  | OPush => (S d, push c, outs)
+  | OPop => match d with O => (O, c, outs) | S d' => (d', pop c, outs) end
+  | OGet x => (d, c, lookup c x :: outs)
+  end.
+
+Definition run_cops (c : ctx) (ops : list cop) : list (outcome value) :=
+  rev' (snd (fold_left run_cop ops (O, c, []))).
